@@ -238,4 +238,18 @@ InDomain(S, kind, sf, sp, df, dp, ow) ==
   \* a destination whose parent path runs through a soft or external link is not modelled (h5py fails in
   \* several ways there: 'address undefined', writes into the other file, ...)
   /\ \A j \in 1..(Len(dp) - 1) : LinkAt(S, df, SubSeq(dp, 1, j)).k \in {"none", "h"}
+-----------------------------------------------------------------------------
+(* The ATTRIBUTE layer of a group (C15: "touch nothing else", "reads identically to the source"): attributes as a
+   function name -> value (values as text).  h5py's attrs.update(src) overlays: a name of the source takes the source's
+   value, every other name keeps its own. *)
+CoolerAttrNames == {"format", "format-url", "format-version", "generated-by", "creation-date", "bin-type", "bin-size",
+                    "storage-mode", "nchroms", "nbins", "sum", "nnz", "genome-assembly", "metadata"}
+Overlay(dst, src) == [n \in DOMAIN dst \cup DOMAIN src |-> IF n \in DOMAIN src THEN src[n] ELSE dst[n]]
+\* cp across files onto the root of an existing file (fileops._copy, root branch): members are copied one by one, the
+\* root keeps its own attributes except where the source names the same attribute
+AttrsAfterCopyOntoRoot(dstBefore, src) == Overlay(dstBefore, src)
+\* create() in append mode at the root: the four tables are replaced, the attributes are written over (write_info)
+UnrelatedKept(before, after) == \A n \in DOMAIN before \ CoolerAttrNames : n \in DOMAIN after /\ after[n] = before[n]
+\* write mode replaces the file: nothing of the old root is left
+NothingForeignLeft(before, after) == \A n \in DOMAIN before \ CoolerAttrNames : n \notin DOMAIN after
 =============================================================================
